@@ -3,7 +3,7 @@ import ast
 
 from . import rule, info
 from ..program import AnalysisError, src, norm, ClassInfo
-from ..util import (is_name, calls_in, callee_qual, deref, ancestors, stmt_of, parent, handler_outcomes,
+from ..util import (choice_leaves, is_name, calls_in, callee_qual, deref, ancestors, stmt_of, parent, handler_outcomes,
                     handler_covers, fmt_witness, kwarg)
 from ..pattern import match, matches
 
@@ -148,7 +148,19 @@ def memo_key(ctx):
     exact = [n for n in u.own_nodes() if isinstance(n, ast.Assign) and is_name(n.targets[0], rv) and isinstance(n.value, ast.Subscript)]
     ctx.ob(len(st) == 1 and rv is not None and len(exact) >= 1, u, 'one memo store, of the computed handler: %s' % [norm(s_) for s_ in st])
     rets = [n for n in u.own_nodes() if isinstance(n, ast.Return)]
-    ctx.ob(len(rets) == 1 and isinstance(rets[0].value, ast.Subscript) and is_name(rets[0].value.slice, kv), u,
+    def is_entry(r):
+        v = r.value
+        if isinstance(v, ast.Subscript) and isinstance(v.value, ast.Attribute) and v.value.attr == '_type_cache' \
+                and is_name(v.slice, kv):
+            return True
+        # the value just stored under the key: the store dominates the return and no other
+        # definition of the variable intervenes
+        if rv is not None and is_name(v, rv) and len(st) == 1:
+            sn, rn = cfg.node_of(st[0]), cfg.node_of(r)
+            same = {id(d) for d, _ in cfg.reaching_defs(sn, rv)} == {id(d) for d, _ in cfg.reaching_defs(rn, rv)}
+            return cfg.dominates(sn, rn) and same
+        return False
+    ctx.ob(bool(rets) and all(is_entry(r) for r in rets), u,
            'the result is always the memo entry of this key: %s' % [norm(r) for r in rets])
     # failure is raised before it could be stored
     rs = [n for n in u.own_nodes() if isinstance(n, ast.Raise)]
@@ -190,7 +202,8 @@ def exact_before_fuzzy(ctx):
     ctx.ob(pth is None, u, 'an exact registration wins without consulting the tree')
     wst = walk[0].ast
     cv = wst.targets[0].id if isinstance(wst, ast.Assign) and is_name(wst.targets[0]) else None
-    use = [n for n in u.own_nodes() if isinstance(n, ast.Assign) and cv and matches(n, '$r = %s[%s]' % (mv, cv))]
+    use = [n for n in u.own_nodes() if isinstance(n, ast.Assign) and cv and is_name(n.targets[0])
+           and any(matches(leaf, '%s[%s]' % (mv, cv)) for leaf in choice_leaves(n.value))]
     ctx.ob(len(use) == 1, u, "the closest registered type's handler is used: %s" % [norm(x) for x in use])
     c = [x for x in calls_in(u) if isinstance(x.func, ast.Attribute) and x.func.attr == '_get_closest_type']
     tt = kwarg(c[0], 'type_tree', 1)
